@@ -44,6 +44,10 @@ pub enum ErrKind {
 
 pub trait KindOf {
     fn kind(&self) -> ErrKind;
+    /// the text of the innermost error (Debug where available, else Display)
+    fn detail(&self) -> String {
+        String::new()
+    }
 }
 impl KindOf for EmptyPopulation {
     fn kind(&self) -> ErrKind {
@@ -54,6 +58,9 @@ impl KindOf for TournamentSizeError {
     fn kind(&self) -> ErrKind {
         ErrKind::TournamentSize
     }
+    fn detail(&self) -> String {
+        format!("{self:?}")
+    }
 }
 impl KindOf for LexicaseError {
     fn kind(&self) -> ErrKind {
@@ -61,6 +68,9 @@ impl KindOf for LexicaseError {
             LexicaseError::EmptyPopulation(_) => ErrKind::Empty,
             LexicaseError::MissingTestCase { .. } => ErrKind::MissingCase,
         }
+    }
+    fn detail(&self) -> String {
+        format!("{self:?}")
     }
 }
 impl<E: KindOf> KindOf for SelectionError<E> {
@@ -70,12 +80,24 @@ impl<E: KindOf> KindOf for SelectionError<E> {
             SelectionError::ZeroWeight(_) => ErrKind::ZeroWeight,
         }
     }
+    fn detail(&self) -> String {
+        match self {
+            SelectionError::Selector(e) => e.detail(),
+            SelectionError::ZeroWeight(_) => String::new(),
+        }
+    }
 }
 impl<A: KindOf, B: KindOf> KindOf for WeightedPairError<A, B> {
     fn kind(&self) -> ErrKind {
         match self {
             WeightedPairError::A(a) => a.kind(),
             WeightedPairError::B(b) => b.kind(),
+        }
+    }
+    fn detail(&self) -> String {
+        match self {
+            WeightedPairError::A(a) => a.detail(),
+            WeightedPairError::B(b) => b.detail(),
         }
     }
 }
@@ -100,10 +122,19 @@ impl KindOf for DynWeightedError {
             DynWeightedError::Other(b) => kind_from_text(&b.to_string()),
         }
     }
+    fn detail(&self) -> String {
+        match self {
+            DynWeightedError::Other(b) => b.to_string(),
+            _ => String::new(),
+        }
+    }
 }
 impl KindOf for Box<dyn std::error::Error + Send + Sync> {
     fn kind(&self) -> ErrKind {
         kind_from_text(&self.to_string())
+    }
+    fn detail(&self) -> String {
+        self.to_string()
     }
 }
 impl KindOf for std::convert::Infallible {
@@ -126,6 +157,36 @@ pub fn index_of<I>(pop: &[I], r: &I) -> Option<usize> {
     pop.iter().position(|x| std::ptr::eq(x, r))
 }
 
+thread_local! {
+    /// Debug text of the error the last observed selection reported
+    pub static LAST_SELECT_ERR: std::cell::RefCell<String> = const { std::cell::RefCell::new(String::new()) };
+}
+/// The details a reported selector error carries must be true of the call: a tournament-size error names the
+/// population size `n` (and the tournament size is larger); a missing-test-case error names an index below the
+/// configured count (`cases`, when known) that some individual indeed lacks (`min_results`, when known).
+pub fn error_details_wrong(kind: ErrKind, n: usize, cases: Option<usize>, min_results: Option<usize>) -> Option<String> {
+    let text = LAST_SELECT_ERR.with(|l| l.borrow().clone());
+    // (field name of the Debug rendering, phrase of the Display rendering)
+    let field = |names: [&str; 2]| -> Option<usize> {
+        let (name, at) = names.iter().find_map(|n| text.find(n).map(|a| (*n, a)))?;
+        let at = at + name.len();
+        let digits: String = text[at..].chars().skip_while(|c| !c.is_ascii_digit()).take_while(|c| c.is_ascii_digit()).collect();
+        digits.parse().ok()
+    };
+    match kind {
+        ErrKind::TournamentSize => {
+            let (t, p) = (field(["tournament_size", "Tournament size"])?, field(["population_size", "population size"])?);
+            (p != n || t <= n).then(|| format!("the error {text} was reported for a population of {n}"))
+        }
+        ErrKind::MissingCase => {
+            let (total, idx) = (field(["total_cases", "Expected"])?, field(["current_index", "at index"])?);
+            let bad = idx >= total || cases.is_some_and(|c| c != total) || min_results.is_some_and(|m| idx < m);
+            bad.then(|| format!("the error {text} was reported for {} configured cases{}", cases.map(|c| c.to_string()).unwrap_or_else(|| "?".into()), min_results.map(|m| format!(", every individual has at least {m} results")).unwrap_or_default()))
+        }
+        _ => None,
+    }
+}
+
 pub fn observe_select<P, S>(s: &S, pop: &P, slice: &[P::Individual], env: &mut Env, alpha: Alphabet) -> SelObs
 where
     P: ec_core::population::Population,
@@ -138,7 +199,10 @@ where
             Some(i) => SelObs::Idx(i),
             None => SelObs::NotMember,
         },
-        Ok(Err(e)) => SelObs::Err(e.kind()),
+        Ok(Err(e)) => {
+            LAST_SELECT_ERR.with(|l| *l.borrow_mut() = e.detail());
+            SelObs::Err(e.kind())
+        }
         Err(p) => SelObs::Panic(p),
     }
 }
